@@ -219,18 +219,27 @@ func runC02_2(c *core.Ctx) {
 		}
 		// the syscall may operate on a bounded window of the payload (iov := bs; iov = iov[:iovMax]):
 		// appending the variable the window was taken from keeps at least as much
-		sources := map[types.Object]bool{dataObj: true}
+		// If the window variable is derived from the payload variable (D := X, possibly clamped afterwards),
+		// only X holds everything that is still unsent: the window alone must not be what gets buffered.
+		sources := map[types.Object]bool{}
 		ast.Inspect(f.Decl.Body, func(n ast.Node) bool {
 			if as, ok := n.(*ast.AssignStmt); ok && len(as.Lhs) == 1 && len(as.Rhs) == 1 && flow.ObjOf(f.Info, as.Lhs[0]) == dataObj {
 				if id, ok := ast.Unparen(as.Rhs[0]).(*ast.Ident); ok {
-					if o := flow.ObjOf(f.Info, id); o != nil {
+					if o := flow.ObjOf(f.Info, id); o != nil && o != dataObj {
 						sources[o] = true
 					}
 				}
 			}
 			return true
 		})
+		if len(sources) == 0 {
+			sources[dataObj] = true
+		}
 		isDataOrSource := func(o types.Object) bool { return o != nil && sources[o] }
+		payloadName := dataObj.Name()
+		for o := range sources {
+			payloadName = o.Name()
+		}
 		const (
 			sIdle  = iota
 			sSent  // syscall returned, result not yet classified
@@ -281,9 +290,9 @@ func runC02_2(c *core.Ctx) {
 			msg := ""
 			switch {
 			case st&(1<<sSent) != 0:
-				msg = "a return is reachable after a (possibly partial) write without appending the unsent rest of " + dataObj.Name() + " to the outbound buffer or establishing that nothing is left: bytes are lost"
+				msg = "a return is reachable after a (possibly partial) write without appending the unsent rest of " + payloadName + " to the outbound buffer or establishing that nothing is left: bytes are lost"
 			case st&(1<<sAgain) != 0:
-				msg = "a return is reachable on the EAGAIN edge without appending " + dataObj.Name() + " to the outbound buffer: the whole payload is lost"
+				msg = "a return is reachable on the EAGAIN edge without appending the whole pending payload " + payloadName + " to the outbound buffer (buffering only the window handed to the syscall drops the rest)"
 			}
 			c.Check(msg == "", f.Name, "return after write syscall", b.Return.Pos(), "leftover appended / nothing left / hard error", msg)
 		})
